@@ -180,7 +180,7 @@ def matrix_with_spectrum(rng, q0, q1, kind, cplx):
 
 
 def _layout(rng, m, n):
-    lay = str(rng.choice(['zero', 'sorted', 'unsorted', 'q0sorted', 'q1sorted', 'disjoint', 'big', 'pairs', 'repeated', 'huge', 'mirror', 'extreme-signs', 'int8', 'wrap-sorted', 'wrap-sorted-int8']))
+    lay = str(rng.choice(['zero', 'sorted', 'unsorted', 'q0sorted', 'q1sorted', 'disjoint', 'big', 'pairs', 'repeated', 'huge', 'mirror', 'extreme-signs', 'int8', 'wrap-sorted', 'wrap-sorted-int8', 'int8-small']))
     r = int(rng.integers(1, 3))
     if lay == 'mirror':
         # the same charge vector on both sides (optionally permuted): every charge block is square
